@@ -228,6 +228,37 @@ def prim_value(rng, bits, signed):
     return rng.choice(c)
 
 
+MEM_N = [33, 34, 35, 40, 47, 48, 49, 50, 51, 52, 64, 65, 66, 70, 96, 97, 98, 99, 100, 130]
+MEM_MUL = [24, 25, 26, 47, 48, 49, 50, 51, 95, 96, 97, 98, 100, 150, 191, 192, 193, 194, 195, 200, 250, 300, 386, 387, 400]
+
+
+def mem_case(rng, tier):
+    """scratch-memory cases: lengths on both sides of the division threshold (32/33 quotient and divisor words) and of the
+    multiplication thresholds reached inside (smaller factor 24/25, 48/49/50 = two Karatsuba levels, 96/97, 192/193 = Toom-3)"""
+    if rng.chance(1, 3):
+        la = rng.choice(MEM_MUL + ([579, 580, 600, 1200] if tier == "thorough" else [579]))
+        r = rng.below(4)
+        if r == 0:
+            lb = la
+        elif r == 1:
+            lb = rng.choice(MEM_MUL)
+        elif r == 2:
+            lb = la * rng.choice([2, 3]) + rng.choice([0, 1, 23, 24, 25, 26, 30])  # chunks + a short / long rest
+        else:
+            lb = max(1, la + rng.choice([-1, 1, -25, 25, 7]))
+        return "mm.0 %s %s %x %x" % (hx(rng.bits(la * W)), hx(rng.bits(lb * W)), la, lb)
+    which = rng.choice([0, 0, 0, 2, 2, 1])
+    n = rng.choice(MEM_N + ([200, 386, 400, 401] if rng.chance(1, 4) else []))
+    if tier == "thorough" and rng.chance(1, 10):
+        n = rng.choice([600, 777, 1000])
+    q = rng.choice([33, 34, 40, 48, 49, 50, 51, 52, 66, n // 2, n // 2 + 1, n - 1, n, n + 1, 2 * n - 1, 2 * n, 2 * n + 1, 2 * n + 34, 3 * n + 5, 3 * n + 50])
+    if which != 2 and rng.chance(1, 8):
+        q = rng.choice([0, 1, 31, 32])
+    q = max(q, 33) if which == 2 else q
+    m = n + q
+    return "km.%d %s %s %x" % (which, hx(rng.bits(m * W)), hx(norm_divisor(rng, n)), m)
+
+
 SAME_FORMS = ["div", "rem", "div_rem", "div_euclid", "rem_euclid", "div_rem_euclid", "is_multiple_of"]
 PLAIN = ["div", "rem", "div_rem"]
 
@@ -305,6 +336,8 @@ def gen_cases(rng, tier, n):
             if rng.chance(1, 2):
                 a = b * quotient(rng, rng.choice([1, 2, 3, 5]))
             out.append("mc.%s %s %s" % ("u", hx(a), hx(b)) if rng.chance(1, 2) else "mc.i %s %s" % (hx(-a), hx(b)))
+        elif k < 93:
+            out.append(mem_case(rng, tier))
         else:
             out.append(kernel_case(rng, tier))
     return out
